@@ -68,10 +68,9 @@ impl LinuxSllHeader {
             buffer
         };
 
-        Ok(
-            // SAFETY: Safe as the buffer contains exactly the needed LinuxSllHeader::LEN bytes.
-            unsafe { LinuxSllHeaderSlice::from_slice_unchecked(&buffer) }.to_header(),
-        )
+        // the content (packet type & ARP hardware type) has to be validated,
+        // the accessors of the slice rely on it
+        Ok(LinuxSllHeaderSlice::from_slice(&buffer)?.to_header())
     }
 
     /// Serialize the header to a given slice. Returns the unused part of the slice.
